@@ -306,7 +306,8 @@ class _RuleFilter:
 def equivalence_discharge(prog, cd, rep, prefix="atom-equivalence/", extra=()):
     """len(map) == len(items) is used to identify counts; it holds because the two lists are only ever mutated pairwise
     (C15's parallel-init / paired-mutation / handler-keeps-pair rules, re-run here for exactly those classes)."""
-    from .c15 import EXPECTED, check_class
+    from .c15 import EXPECTED, check_class, resolve_expected
+    resolve_expected(prog)
     proxy = _RuleFilter(rep, {"parallel-init", "paired-mutation", "handler-keeps-pair", "container-kind"} | set(extra), prefix)
     for cname, (amap, items) in EXPECTED.items():
         if cname in cd.pairs and cname in cd.units:
